@@ -697,6 +697,14 @@ theorem step_resOk {cfg : Cfg} (hcfg : cfgOk cfg = true) {alloc : Alloc} (hal : 
               rw [hl.2] at hx
               exact holder_mono hfr.heap (ho.its i' x hx)
     · exact ho
+  | mkPal k cls =>
+    simp only [step]
+    split
+    · rename_i s' a h
+      obtain ⟨_, hfr, _, _⟩ := mkPalette_spec hcfg hal hinv h
+      have hl := mkPalette_lazy h
+      exact resOk_same ho hfr.heap hl.1 hl.2
+    · exact ho
 
 /-! ### histories -/
 
@@ -745,6 +753,11 @@ theorem step_inv {cfg : Cfg} (hcfg : cfgOk cfg = true) (hko : cfg.keyByObj = tru
     simp only [step]
     split
     · rename_i s' outs h; exact nextIter_inv hcfg hal hinv h
+    · exact hinv
+  | mkPal k cls =>
+    simp only [step]
+    split
+    · rename_i s' a h; exact (mkPalette_spec hcfg hal hinv h).1
     · exact hinv
 
 theorem run_inv {cfg : Cfg} (hcfg : cfgOk cfg = true) (hko : cfg.keyByObj = true) {alloc : Alloc}
